@@ -126,9 +126,9 @@ theorem mkCond_triple (k : Kind) (c : Int) : TriplePres (mkCond k c) := by
   · exact mkVal_triple _ _
 
 /-- `add_guard` hands back exactly the triple it found -/
-theorem addGuard_bak {cv : Val} {s s' : St} {bak : GuardBak} (h : addGuard cv s = .ok (bak, s')) :
+theorem addGuardCore_bak {cv : Val} {s s' : St} {bak : GuardBak} (h : addGuardCore cv s = .ok (bak, s')) :
     (⟨bak.guard, bak.ignoreErrors, bak.one⟩ : Triple) = s.triple := by
-  unfold addGuard at h
+  unfold addGuardCore at h
   split at h
   · split at h
     · cases h
@@ -145,12 +145,15 @@ theorem addGuard_bak {cv : Val} {s s' : St} {bak : GuardBak} (h : addGuard cv s 
       · simp only [Except.ok.injEq, Prod.mk.injEq] at h; obtain ⟨rfl, _⟩ := h; rfl
   · cases h
 
+theorem addGuard_bak {cv : Val} {s s' : St} {bak : GuardBak} (h : addGuard cv s = .ok (bak, s')) :
+    (⟨bak.guard, bak.ignoreErrors, bak.one⟩ : Triple) = s.triple := addGuardCore_bak h
+
 /-- error suppression after `add_guard(cond)` on a secret condition: on iff it was on or the
 condition is false -/
-theorem addGuard_ignore {c : LinComb} {s s' : St} {bak : GuardBak} (h : addGuard (.lc c) s = .ok (bak, s'))
+theorem addGuard_ignore {c : LinComb} {s s' : St} {bak : GuardBak} (h : addGuardCore (.lc c) s = .ok (bak, s'))
     (hb : TriplePres (bwLV .and (s.guard.getD c) (.lc c))) :
     s'.ignoreErrors = (s.ignoreErrors || c.value == 0) := by
-  unfold addGuard at h
+  unfold addGuardCore at h
   simp only at h
   split at h
   · cases h
